@@ -253,25 +253,24 @@ def abruptCommentData (b : Bytes) : Bytes :=
 
 /-- readComment state machine.  `all` is the comment body (everything after `<!--`),
     `pos` the number of bytes consumed so far.  Returns (data, rest). -/
-def readCommentAux (all : Bytes) : Bytes → Nat → Nat → Bool → Bytes × Bytes
-  | [], _, _, _ => (abruptCommentData all, [])
-  | c :: cs, pos, dash, beginning =>
-    if c == 45 then readCommentAux all cs (pos + 1) (dash + 1) beginning
+def readCommentAux (all : Bytes) : Nat → Bytes → Nat → Nat → Bool → Bytes × Bytes
+  | 0, _, _, _, _ => (abruptCommentData all, [])
+  | _, [], _, _, _ => (abruptCommentData all, [])
+  | fuel + 1, c :: cs, pos, dash, beginning =>
+    if c == 45 then readCommentAux all fuel cs (pos + 1) (dash + 1) beginning
     else if c == 62 then
       if dash ≥ 2 || beginning then (all.take (pos - 2), cs)
-      else readCommentAux all cs (pos + 1) 0 false
+      else readCommentAux all fuel cs (pos + 1) 0 false
     else if c == 33 && dash ≥ 2 then
       match cs with
       | [] => (abruptCommentData all, [])
       | c2 :: cs2 =>
         if c2 == 62 then (all.take (pos - 2), cs2)
-        else if c2 == 45 then readCommentAux all cs2 (pos + 2) 1 false
-        else readCommentAux all cs2 (pos + 2) 0 false
-    else readCommentAux all cs (pos + 1) 0 false
-termination_by s => s.length
-decreasing_by all_goals simp_all <;> omega
+        else if c2 == 45 then readCommentAux all fuel cs2 (pos + 2) 1 false
+        else readCommentAux all fuel cs2 (pos + 2) 0 false
+    else readCommentAux all fuel cs (pos + 1) 0 false
 
-def readComment (b : Bytes) : Bytes × Bytes := readCommentAux b b 0 0 true
+def readComment (b : Bytes) : Bytes × Bytes := readCommentAux b (b.length + 1) b 0 0 true
 
 def matchCI : Bytes → Bytes → Bool
   | [], _ => true
